@@ -244,39 +244,31 @@ type CompleteMultipartUploadPart struct {
 
 type ChecksumValues = checksumutils.ChecksumValues
 
+// checksumMismatch reports whether a supplied checksum fails validation. A
+// supplied value for which nothing was calculated (e.g. SHA-256 on a
+// FULL_OBJECT multipart upload, CRC64NVME on a COMPOSITE one) cannot be
+// verified and is rejected rather than silently accepted.
+func checksumMismatch(supplied *string, calculated *string) bool {
+	if supplied == nil {
+		return false
+	}
+	if calculated == nil {
+		return true
+	}
+	return *supplied != *calculated
+}
+
 func ValidateChecksums(checksumInput *ChecksumInput, calculatedChecksums ChecksumValues) error {
 	if checksumInput == nil {
 		return nil
 	}
-	if checksumInput.ETag != nil && calculatedChecksums.ETag != nil {
-		if *checksumInput.ETag != *calculatedChecksums.ETag {
-			return ErrBadDigest
-		}
-	}
-	if checksumInput.ChecksumCRC32 != nil && calculatedChecksums.ChecksumCRC32 != nil {
-		if *checksumInput.ChecksumCRC32 != *calculatedChecksums.ChecksumCRC32 {
-			return ErrBadDigest
-		}
-	}
-	if checksumInput.ChecksumCRC32C != nil && calculatedChecksums.ChecksumCRC32C != nil {
-		if *checksumInput.ChecksumCRC32C != *calculatedChecksums.ChecksumCRC32C {
-			return ErrBadDigest
-		}
-	}
-	if checksumInput.ChecksumCRC64NVME != nil && calculatedChecksums.ChecksumCRC64NVME != nil {
-		if *checksumInput.ChecksumCRC64NVME != *calculatedChecksums.ChecksumCRC64NVME {
-			return ErrBadDigest
-		}
-	}
-	if checksumInput.ChecksumSHA1 != nil && calculatedChecksums.ChecksumSHA1 != nil {
-		if *checksumInput.ChecksumSHA1 != *calculatedChecksums.ChecksumSHA1 {
-			return ErrBadDigest
-		}
-	}
-	if checksumInput.ChecksumSHA256 != nil && calculatedChecksums.ChecksumSHA256 != nil {
-		if *checksumInput.ChecksumSHA256 != *calculatedChecksums.ChecksumSHA256 {
-			return ErrBadDigest
-		}
+	if checksumMismatch(checksumInput.ETag, calculatedChecksums.ETag) ||
+		checksumMismatch(checksumInput.ChecksumCRC32, calculatedChecksums.ChecksumCRC32) ||
+		checksumMismatch(checksumInput.ChecksumCRC32C, calculatedChecksums.ChecksumCRC32C) ||
+		checksumMismatch(checksumInput.ChecksumCRC64NVME, calculatedChecksums.ChecksumCRC64NVME) ||
+		checksumMismatch(checksumInput.ChecksumSHA1, calculatedChecksums.ChecksumSHA1) ||
+		checksumMismatch(checksumInput.ChecksumSHA256, calculatedChecksums.ChecksumSHA256) {
+		return ErrBadDigest
 	}
 	return nil
 }
